@@ -186,7 +186,7 @@ fn create_mod_name_for_namespace(abbreviation: &str) -> String {
 fn try_to_find_node_by_xml_name_in_xml_doc<'n>(
     start_node: &'n Node<'n, 'n>,
     xml_name: &str,
-    _namespace: Option<&Namespace>,
+    namespace: Option<&Namespace>,
     doc: &mut RustDocument,
 ) -> WriterResult<RustNode> {
     // get to the root of the document from the start node
@@ -198,6 +198,18 @@ fn try_to_find_node_by_xml_name_in_xml_doc<'n>(
     // iterate over all subsequent nodes in the XML tree to find the node with the given name
     for node in start_node.descendants() {
         if node.is_element() {
+            // only global components (the children of a schema) can be referenced, and only those of the
+            // namespace the reference points to
+            let Some(schema) = node
+                .parent()
+                .filter(|p| p.is_element() && p.tag_name().name() == "schema")
+            else {
+                continue;
+            };
+            if namespace.is_some_and(|ns| schema.attribute("targetNamespace") != Some(ns.namespace.as_str())) {
+                continue;
+            }
+
             // do a quick check on the name of the node, so we can skip the more expensive try_from_node
             if let Some(node_name) = node.attribute("name") {
                 let (node_name, _node_namespace) = resolve_type(node_name, doc);
